@@ -36,7 +36,8 @@ sensitivity|seeded|baseline)
     for f in "${LIST[@]}"; do
         extra="--tier quick"   # a seeded change may name the tier that is able to see it (meta.json: "check_args")
         case "$f" in */seeded/*) name="$(basename "$(dirname "$f")")"; id="$(python3 -c "import json,sys; print(json.load(open(sys.argv[1]))['property'])" "$(dirname "$f")/meta.json")"
-                                 extra="$(python3 -c "import json,sys; print(json.load(open(sys.argv[1])).get('check_args','--tier quick'))" "$(dirname "$f")/meta.json")" ;;
+                                 extra="$(python3 -c "import json,sys; print(json.load(open(sys.argv[1])).get('check_args','--tier quick'))" "$(dirname "$f")/meta.json")"
+                                 id="$(python3 -c "import json,sys; m=json.load(open(sys.argv[1])); print(m.get('check_property', m['property']))" "$(dirname "$f")/meta.json")" ;;
                      *) name="$(basename "$f" .patch)"; id="${name%%-*}" ;; esac
         if [ $# -gt 0 ]; then hit=0; for want in "$@"; do case "$name" in *"$want"*) hit=1;; esac; done; [ $hit = 1 ] || continue; fi
         TOTAL=$((TOTAL+1))
